@@ -111,6 +111,7 @@ package sync
 //@ loop 0:
 //@   invariant [C15] search: subjHeight == subjHead.Height() && subjHeight < newHead.Height() && diff <= newHead.Height() - subjHeight && verified(subjHead)
 //@   invariant [C15,C03] chained: linked(old(subjHead), subjHead)
+//@   invariant [C15] window-top-is-known-bad: subjHeight + diff == newHead.Height() || (exists c H :: softFailed(subjHead, c) && c.Height() == subjHeight + diff) -- bisection: the window above the subjective head ends at the candidate head or at a header that soft-failed against the current subjective head, so no height below it is ever skipped
 //@   decreases [C15] newHead.Height() - subjHeight, diff
 
 // ---- only verified headers reach the store or the pending ranges (C03)
